@@ -137,6 +137,9 @@ class Norm:
                     if r[0] == "data":
                         r = ("dataplace", r[1], r[2])  # deref of a payload pointer is the payload place
                     continue
+                if r[0] == "struct" and name in r[2]:
+                    r = r[3][r[2].index(name)]
+                    continue
                 if name == (F.data_field[1] if F.data_field else None) and r[0] in ("stored", "arg", "sub_off", "opaque", "mk"):
                     r = ("dataplace", r, None)
                 elif name in self.handle_ptr_fields.values() or name in self.wrapper_fields:
@@ -153,6 +156,10 @@ class Norm:
                 ops = e[4]
                 if hn and ops:
                     return ("mk", hn, self.norm(ops[0], argmap, depth + 1))
+                if len(e) > 5 and e[5] and len(e[5]) == len(ops):
+                    # a private wrapper struct built on the spot (`Transient(ManuallyDrop::new(arc), PhantomData)`): remember its
+                    # fields so that a later `.0` finds what was put in
+                    return ("struct", e[2], tuple(e[5]), tuple(self.norm(o, argmap, depth + 1) for o in ops))
             return ("opaque", symx.show(e))
         if k == "call":
             path, name, args = e[1], e[2], e[3]
